@@ -24,9 +24,10 @@
       whose variables cover the support)
     * in every mode: `C08_ops_unconditional` (no table change) and `collect_garbage`
     * shutdown after "drop everything, collect" (`C08_collect_then_shutdown`)
-  CONDITIONAL, hypotheses named: `copy_vars` (`C08_copy_vars`: its levels can leave a gap, F7);
-  shutdown with garbage still stored (`GcSpec0`: `collect_garbage` after the terminal's own
-  reference is released).
+    * shutdown with garbage still stored (`C08_shutdown`), `copy_vars` into a target without
+      nodes (`C08_copy_vars_fresh`)
+  CONDITIONAL, hypothesis named: `copy_vars` into a target that already stores nodes
+  (`C08_copy_vars`: its levels can leave a gap, F7).
   Dynamic reordering ENABLED: `C08_ops_dyn` (from the C09 transparency theorems), plus everything
   of `C08_ops_unconditional` / `C08_ops_guarded` that is stated for every mode.
 -/
@@ -35,6 +36,8 @@ import DDProofs.AutoTemps
 import DDProofs.AutoCore
 import DDProofs.AutoImage
 import DDProofs.AutoDyn
+import DDProofs.AutoCopyVars
+import DDProofs.AutoShutdown
 open Std
 
 namespace DD
@@ -178,9 +181,10 @@ theorem C08_ops_unconditional (h : Nat) :
 least two variables; the reordering request may fire at any node creation, C09): for live
 `Function` operands and declared names these methods keep the invariant, every other handle
 and the meaning of every live `Function`.
-NOT covered with reordering enabled (named here, not proved): `apply` with the quantifier
-aliases (needs "the support names are declared", C03/C10), `let` with `Function` values,
-`declare` as a loop (use `add_var`, `C08_ops_guarded`), and the operations that are not
+`apply` with a quantifier alias quantifies over the support of its first operand (the names are
+declared: C10 + the order invariant); `let` with `Function` values needs the values to be
+`Function`s of this manager; `declare` never reorders.
+NOT covered with reordering enabled (named here, not proved): the operations that are not
 protected against a reordering in the middle — `image`, `preimage`, the raw `find_or_add`
 (finding F4c). -/
 theorem C08_ops_dyn (a : AMgr) (h : Nat) :
@@ -200,6 +204,11 @@ theorem C08_ops_dyn (a : AMgr) (h : Nat) :
       ∀ hu, AKeepsAt false a h (aLet (.names dvars) hu h)) ∧
     (∀ op c, docConn op = some c → c.arity = 2 → c ≠ .forall_ → c ≠ .exists_ →
       Gen.allOps.contains op = true → ∀ hs ho, AKeepsAt false a h (fApply op hs (some ho) h)) ∧
+    (∀ op c, docConn op = some c → (c = .forall_ ∨ c = .exists_) → Gen.allOps.contains op = true →
+      ∀ hu hv, AKeepsAt false a h (aApply op hu (some hv) none h)) ∧
+    (∀ (d : List (String × Nat)), d ≠ [] → (∀ p ∈ d, a.m.tbl.vars.contains p.1 = true) →
+      (∀ p ∈ d, ∃ v, a.handles[p.2]? = some v) → ∀ hu, AKeepsAt false a h (aLet (.funs d) hu h)) ∧
+    (∀ ns, AKeeps false h (aDeclare ns)) ∧
     (∀ op hs, AKeeps false h (fApply op hs none h)) ∧
     (∀ hs ho, AKeeps0 false (fLe hs ho)) ∧
     (∀ hs ho, AKeeps0 false (fLt hs ho)) ∧
@@ -215,6 +224,9 @@ theorem C08_ops_dyn (a : AMgr) (h : Nat) :
    fun vals hne hd hu => aLet_bools_keepsAtDyn a vals hne hd hu h,
    fun dvars hne hd hu => aLet_names_keepsAtDyn a dvars hne hd hu h,
    fun op c hc h2 hq1 hq2 hall hs ho => fApply_binary_keepsAtDyn a op c hc h2 hq1 hq2 hall hs ho h,
+   fun op c hc hq hall hu hv => aApply_quant_keepsAtDyn a op c hc hq hall hu hv h,
+   fun d hne hd hown hu => aLet_funs_keepsAtDyn a d hne hd hown hu h,
+   fun ns => aDeclare_keepsAll ns h,
    fun op hs => fApply_unary_keeps op hs h,
    fun hs ho => fLe_keepsDyn hs ho, fun hs ho => fLt_keepsDyn hs ho,
    fun src _ hu hsrc hpre => aCopyTo_keepsAtDyn a src hsrc hu h hpre⟩
@@ -222,8 +234,18 @@ theorem C08_ops_dyn (a : AMgr) (h : Nat) :
 /-- non-vacuity of the mode: the C09 example manager (reordering enabled, two variables) -/
 example : DynInv exExt exDyn := exDyn_dynInv
 
-/-- the one remaining hypothesis with reordering not enabled: `copy_vars(source, target)` adds the
-variables at the levels of the source, which can leave a gap in the target (finding F7) -/
+/-- `copy_vars(source, target)` into a target WITHOUT nodes whose declarations are compatible with
+the source (a fresh target in particular, `VarsCompat.empty`): every mode.  Afterwards the target
+declares exactly the source's variables at the source's levels (C11 `copyVarsCore_spec`). -/
+theorem C08_copy_vars_fresh (a : AMgr) (src : Tbl) (hO : OrderOK src) (names : List String)
+    (hperm : names.Perm src.vars.keys) (hc : VarsCompat src a.m.tbl)
+    (hnone : ∀ u : Nat, a.m.tbl.node? u = none) (h2 : off = false → 2 ≤ src.nvars) (h : Nat) :
+    AKeepsAt off a h (aCopyVars src names) :=
+  aCopyVars_keepsAt_noNodes a src hO names hperm hc hnone h2 h
+
+/-- `copy_vars` into a target that already stores nodes: it adds the variables at the levels of the
+source, which can leave a gap or collide with used levels (finding F7); general form with the
+core hypothesis -/
 theorem C08_copy_vars (a : AMgr) (src : Tbl) (names : List String) (h : Nat)
     (hs : CoreKeepsAt off a.m (copyVarsCore src names)) : AKeepsAt off a h (aCopyVars src names) :=
   aCopyVars_keepsAt a src names hs h
@@ -252,16 +274,19 @@ theorem C08_collect_then_shutdown (a : AMgr) (hi : AInv off a) (he : a.handles.i
       (∀ (k c : Nat), m2.ref[k]? = some c → c = 0) :=
   autoref_collect_then_shutdown a hi he
 
-/-- shutdown with garbage still stored, unconditional statement -/
+/-- shutdown, the statement of the property: once every `Function` of a manager is gone, the
+manager's shutdown check (`dd.bdd.BDD.__del__`: release the terminal's own reference, collect,
+assert that every count is zero) passes, whatever garbage is still stored -/
 def C08_shutdown_statement : Prop :=
   ∀ (off : Bool) (a : AMgr), AInv off a → a.handles.isEmpty = true →
     ∃ m', shutdown a.m = (.ok (), m') ∧ (∀ u : Nat, m'.tbl.node? u = none) ∧
       (∀ (k c : Nat), m'.ref[k]? = some c → c = 0)
 
-/-- … proved from the specification of `collect_garbage` in the state *after* the terminal's
-own reference has been released (`collectGarbage_spec` covers the states before) -/
-theorem C08_shutdown_of_gcSpec0 (gs : GcSpec0) : C08_shutdown_statement :=
-  fun _ a hi he => autoref_shutdown_of_gcSpec0 gs a hi he
+/-- … proved without hypothesis: the collection after the terminal's release is simulated step by
+step by the collection of the state with exact counts (`sim_step`, `sim_loop`), to which C06's
+`GcRun.spec` applies -/
+theorem C08_shutdown : C08_shutdown_statement :=
+  fun _ a hi he => autoref_shutdown a hi he
 
 /-! ### non-vacuity -/
 
